@@ -75,7 +75,11 @@ def stepC03 (dflt : Int) (d : Nat) (st : PState d) (op : Json) (obs : Json) : Ex
       pure (t', jInt (getLeaf dflt d t' p), st.spec, jInt (st.spec.get dflt p))
     | "assign" => do
       let v ← fInt op "v"
-      let t' := updateAt (fun _ => v) d (refAt dflt d st.tree p) p
+      -- `ref.v = <payload of another point>` first obtains that point's reference (which creates it)
+      let t0 := match op.getObjVal? "from" with
+        | .ok q => (match asInts q with | .ok qs => refAt dflt d st.tree qs | _ => st.tree)
+        | _ => st.tree
+      let t' := updateAt (fun _ => v) d (refAt dflt d t0 p) p
       pure (t', jInt (getLeaf dflt d t' p), st.spec.set p v, jInt v)
     | "iadd" => do
       let v ← fInt op "v"
